@@ -563,3 +563,94 @@ def _reaches_by_super(prog: Program, c: ClassInfo, fn: FunctionInfo) -> bool:
                 nxt = prog.lookup_after(c, cur.cls, fn.name)
         cur = nxt
     return False
+
+
+# ---------------------------------------------------------------------------------------------- E4 V4: permutation direction
+def rule_V4(run: Run, prog: Program) -> int:
+    run.rule(
+        "E4.V4",
+        "index types after array.transpose(perm): numpy puts source axis perm[i] at result position i, so the index sets of the "
+        "result are the PREIMAGE of the source sets under perm ({i : perm[i] in S}); the image {perm[i] : i in S} is the inverse "
+        "permutation and differs for every permutation that is not an involution",
+    )
+    tensor = prog.cls("Tensor")
+    fn = prog.lookup(tensor, "transpose")
+    if fn is None:
+        return 0
+    # the permutation variable: argument of <something>.transpose(...) / np.transpose(..., axes=...)
+    perm = None
+    for node in walk_no_nested(fn.node):
+        if isinstance(node, ast.Call) and isinstance(node.func, ast.Attribute) and node.func.attr == "transpose" and node.args and isinstance(node.args[0], ast.Name):
+            if not (isinstance(node.func.value, ast.Name) and node.func.value.id in ("np", "numpy")):
+                perm = node.args[0].id
+    if perm is None:
+        run.add("E4.V4", fn.short, "permutation", UNDECIDED, "no array.transpose(<name>) call found", fn.loc)
+        return 0
+    n = 0
+
+    def is_set_attr(e: ast.AST) -> bool:
+        return any(isinstance(x, ast.Attribute) and x.attr in ("_covariant_indices", "_contravariant_indices") for x in ast.walk(e))
+
+    def judge(kind: str, node: ast.AST, label: str) -> None:
+        nonlocal n
+        n += 1
+        loc = f"{fn.module.rel}:{node.lineno}"
+        if kind == "pre":
+            run.add("E4.V4", fn.short, label, PROVEN, "result index set is the preimage of the source set under the permutation", loc)
+        elif kind == "img":
+            run.add("E4.V4", fn.short, label, VIOLATION,
+                    f"`{label}` maps the source index set forward through `{perm}` (inverse permutation): for a permutation that is not its own "
+                    f"inverse (a 3-cycle, (1, 2, 0)) the covariant/contravariant types end up on the wrong axes while the array is transposed correctly", loc)
+        else:
+            run.add("E4.V4", fn.short, label, UNDECIDED, "relation between the permutation and the index sets not recognised", loc)
+
+    for node in walk_no_nested(fn.node):
+        if isinstance(node, (ast.SetComp, ast.ListComp, ast.GeneratorExp)) and len(node.generators) == 1:
+            g = node.generators[0]
+            src = ast.unparse(node)
+            if perm not in {x.id for x in ast.walk(node) if isinstance(x, ast.Name)}:
+                continue
+            if isinstance(g.iter, ast.Call) and getattr(g.iter.func, "id", "") == "enumerate" and g.iter.args and getattr(g.iter.args[0], "id", None) == perm \
+                    and isinstance(g.target, ast.Tuple) and len(g.target.elts) == 2 and all(isinstance(t, ast.Name) for t in g.target.elts):
+                i, j = g.target.elts[0].id, g.target.elts[1].id
+                tests = [c for c in g.ifs if isinstance(c, ast.Compare) and len(c.ops) == 1 and isinstance(c.ops[0], ast.In) and is_set_attr(c.comparators[0])]
+                if tests and isinstance(node.elt, ast.Name):
+                    tv = getattr(tests[0].left, "id", None)
+                    if node.elt.id == i and tv == j:
+                        judge("pre", node, norm_stmt(node))
+                    elif node.elt.id == j and tv == i:
+                        judge("img", node, norm_stmt(node))
+                    else:
+                        judge("?", node, norm_stmt(node))
+                continue
+            if is_set_attr(g.iter) and isinstance(g.target, ast.Name):
+                i = g.target.id
+                e = node.elt
+                if isinstance(e, ast.Subscript) and getattr(e.value, "id", None) == perm and getattr(e.slice, "id", None) == i:
+                    judge("img", node, norm_stmt(node))
+                elif isinstance(e, ast.Call) and isinstance(e.func, ast.Attribute) and e.func.attr == "index" and getattr(e.func.value, "id", None) == perm:
+                    judge("pre", node, norm_stmt(node))
+                else:
+                    judge("?", node, norm_stmt(node))
+        if isinstance(node, ast.For) and isinstance(node.iter, ast.Call) and getattr(node.iter.func, "id", "") == "enumerate" \
+                and node.iter.args and getattr(node.iter.args[0], "id", None) == perm and isinstance(node.target, ast.Tuple) and len(node.target.elts) == 2:
+            i, j = (getattr(t, "id", None) for t in node.target.elts)
+            for sub in ast.walk(node):
+                if isinstance(sub, ast.If) and isinstance(sub.test, ast.Compare) and len(sub.test.ops) == 1 and isinstance(sub.test.ops[0], ast.In) \
+                        and is_set_attr(sub.test.comparators[0]):
+                    tv = getattr(sub.test.left, "id", None)
+                    added = None
+                    for c in ast.walk(sub):
+                        if isinstance(c, ast.Call) and isinstance(c.func, ast.Attribute) and c.func.attr in ("append", "add") and c.args and isinstance(c.args[0], ast.Name):
+                            added = c.args[0].id
+                            break
+                    label = "if " + ast.unparse(sub.test)
+                    if tv == j and added == i:
+                        judge("pre", sub, label)
+                    elif tv == i and added == j:
+                        judge("img", sub, label)
+                    else:
+                        judge("?", sub, label)
+    if n == 0:
+        run.add("E4.V4", fn.short, "index sets of the transposed tensor", UNDECIDED, "no construction of the index sets from the permutation recognised", fn.loc)
+    return n
